@@ -83,6 +83,8 @@ CASES = {
  "l_comp": ({"xs": LS}, LS, [([],), (["a", "b"],)]),
  "l_comp_tuple_filter": ({"a": OS, "b": OS, "c": OS}, LS, [(None, None, None), ("a", None, "c"), ("", "b", None), ("a", "b", "c")]),
  "l_len_comp_filter": ({"a": OS, "b": OS, "c": OS}, Int, [(None, None, None), ("a", None, "c"), ("", "b", None), ("a", "b", "c"), ("", "", "")]),
+ "l_comp_list_filter": ({"xs": LS, "t": Str}, LS, [([], "a"), (["a", "b", "ab"], "a"), (["b", "b"], "a"), (["a", "a"], "a"), (["x", "ay", "z", "az"], "a"), (["q"], "")]),
+ "l_comp_list_filter_len": ({"xs": LS}, Int, [([],), (["", "a", ""],), (["a", "b"],), ([""],)]),
  "l_display_index": ({"a": Str, "b": Str}, Str, [("x", "y")]),
  "l_unpack": ({"a": Str, "b": Str}, Str, [("x", "y")]),
  "l_concat_display": ({"a": Str, "b": Str}, Int, [("x", "y")]),
